@@ -1002,8 +1002,24 @@ fn pert_case(c: &PertCase) -> Report {
         disk.write(&name, b);
     }
     let digester = CardanoImmutableDigester::new(None, discard_logger());
+    // a long-lived signable builder over a cache-less digester, as a running signer / aggregator holds one: the root
+    // it offers for signing is read before AND after the perturbation from the same instance
+    let long_lived = CardanoDatabaseSignableBuilder::new(Arc::new(CardanoImmutableDigester::new(None, discard_logger())), &disk.pass_dir, discard_logger());
+    let signed_root = |sb: &CardanoDatabaseSignableBuilder| -> Outcome {
+        match rt.block_on(sb.compute_protocol_message(CardanoDbBeacon::new(1, beacon))) {
+            Ok(m) => match m.get_message_part(&ProtocolMessagePartKey::CardanoDatabaseMerkleRoot) {
+                Some(r) => Outcome::Root(r.clone()),
+                None => Outcome::Other("no Merkle root part".into()),
+            },
+            Err(e) => {
+                let not_enough = e.chain().any(|c| matches!(c.downcast_ref::<ImmutableDigesterError>(), Some(ImmutableDigesterError::NotEnoughImmutable { .. })));
+                if not_enough { Outcome::NotEnough } else { Outcome::Other(format!("{e:?}").chars().take(300).collect()) }
+            }
+        }
+    };
     let before_map = covered_map(&disk.model, beacon);
     let before = cut_root(&rt, &digester, &disk.pass_dir, beacon);
+    let signed_before = signed_root(&long_lived);
     let before_ref = ref_root(&disk.model, beacon);
     if before != before_ref {
         rep.violation(
@@ -1158,6 +1174,18 @@ fn pert_case(c: &PertCase) -> Report {
         rep.violation("unexpected-digester-error", format!("after {:?}: {e}", c.pert));
         return rep;
     }
+    let signed_after = signed_root(&long_lived);
+    if signed_before != before_ref || signed_after != after_ref {
+        rep.violation(
+            "long-lived-signable-builder-root-differs-from-reference",
+            format!(
+                "the same CardanoDatabaseSignableBuilder (no digest cache) asked at beacon {beacon} before and after {:?}: {signed_before:?} then {signed_after:?}; reference {before_ref:?} then {after_ref:?}",
+                c.pert
+            ),
+        );
+        return rep;
+    }
+    rep.label("observed:long-lived-signable-builder");
     if changed && after == before {
         rep.violation(
             "covered-change-not-reflected",
